@@ -250,3 +250,7 @@ def check(run, prog, tier):
                      (n.get("k") == "Un" and n.get("op") == "--" and strip(n["e"]).get("n") == "current_number_of_locals") for b, i, n in f.nodes())
         run.ob("C02-f", "sem-value:%s" % f.name, shrink, "%s drops sem_value of locals-table entries and %s the live range" % (f.name, "shrinks" if shrink else "DOES NOT shrink"), f.file, decs[0][2].get("l"), f.name,
                what="%s decrements sem_value of entries that stay in the live range of the locals table: the abort path (clean_up_locals) decrements them again and the identifier (possibly an efun name) becomes undefined for later compiles" % f.name)
+
+    # ---- C02-g lexer state across tokens/compilations
+    import rules.C02g as c02g
+    c02g.check(run, prog, tier, callgraph.CallGraph(prog))
